@@ -22,8 +22,8 @@ Section fin.
     intros [[Hfc Hen Hca Hri Hout] Hv Np Nc] Ip Ic.
     unfold finish_fires, hooked. rewrite (entry_check_noover cp sp a Ip), (entry_check_noover cc sc a Ic).
     cbn [cp cc pg_of cyg_of trig_of fmode_in gdepth shp].
-    change (loc_out (pg_of c) (trig_of c a)) with (loc_out c (trig_of c a)).
-    change (loc_out (cyg_of c) (trig_of c a)) with (loc_out c (trig_of c a)).
+    change (loc_out cp (trig_of c a)) with (loc_out c (trig_of c a)).
+    change (loc_out cc (trig_of c a)) with (loc_out c (trig_of c a)).
     rewrite Hfc, Hen.
     destruct (core (trig_of c a) (fmode_in c) (loc_out c (trig_of c a)) (gdepth c) (fc sc) (enabled sc)) as [[[[f' en'] v] tr] sv].
     destruct v; [rewrite !andb_true_r; reflexivity| |reflexivity].
@@ -54,16 +54,16 @@ Section fin.
     intros [[Hfc Hen Hca Hri Hout] Hv Np Nc] Ip Ic.
     unfold finish_enter. rewrite (entry_check_noover cp sp a Ip), (entry_check_noover cc sc a Ic).
     cbn [cp cc pg_of cyg_of trig_of fmode_in gdepth shp].
-    change (loc_out (pg_of c) (trig_of c a)) with (loc_out c (trig_of c a)).
-    change (loc_out (cyg_of c) (trig_of c a)) with (loc_out c (trig_of c a)).
+    change (loc_out cp (trig_of c a)) with (loc_out c (trig_of c a)).
+    change (loc_out cc (trig_of c a)) with (loc_out c (trig_of c a)).
     rewrite Hfc, Hen.
     destruct (core (trig_of c a) (fmode_in c) (loc_out c (trig_of c a)) (gdepth c) (fc sc) (enabled sc)) as [[[[f' en'] v] tr] sv].
     cbn [ridx fc]. rewrite Hri.
-    match goal with |- context [entry_record (pg_of c) ?S1 ?F1 tr sv] =>
-      match goal with |- context [entry_record (cyg_of c) ?S2 ?F2 tr sv] =>
+    match goal with |- context [entry_record cp ?S1 ?F1 tr sv] =>
+      match goal with |- context [entry_record cc ?S2 ?F2 tr sv] =>
         destruct (entry_record_on_rel S1 S2 F1 F2 tr sv eq_refl eq_refl eq_refl eq_refl eq_refl) as (t1 & t2 & St1 & St2 & Eu)
       end end.
-    fold cp cc in St1, St2. unfold cp, cc in St1, St2. rewrite St1, St2. cbn [with_fc stack].
+    rewrite St1, St2. cbn [with_fc stack].
     pose proof (rtd_rel t1 t2 (stack sp) (stack sc) Eu Np Nc Hv) as RT.
     destruct (record_trace_data t1 (stack sp)) as [[t1' a1] r1]. destruct (record_trace_data t2 (stack sc)) as [[t2' a2] r2].
     destruct RT as (Er & _). cbn [out]. rewrite Hout, Er. reflexivity.
